@@ -11,6 +11,7 @@ mod framework;
 mod harness;
 mod lin;
 mod scn_cont;
+mod scn_exec;
 mod payload;
 mod rng;
 mod scn_uni;
@@ -19,6 +20,8 @@ use framework::{check_scenarios, CheckCfg, Part, PartRunner, ReplayFile, Tier};
 use std::sync::Arc;
 
 const RULE_T: &str = "one evaluation = one simulated run (workload, sizes, fault rates and schedule all drawn from run_seed = f(VERIF_SEED, property, run index)); a run is non-trivial if the scheduler preempted a thread inside an operation at least once; distinct = distinct context-switch signatures (hash of the sequence of (from-thread, to-thread, code site) over all context switches of the run), counted with a hash set merged across workers";
+
+const RULE_D: &str = "one evaluation = one simulated run under virtual time (tokio current-thread runtime with paused clock; workload, delays, limits, timeouts and the instants of close/cancel all drawn from run_seed = f(VERIF_SEED, property, run index)); the runtime is deterministic, so distinct = distinct generated workloads (hash of all workload parameters, counted with a hash set merged across workers); non-trivial = at least two pipeline items";
 
 struct PropertyCheck {
     parts: Vec<Box<dyn PartRunner>>,
@@ -38,6 +41,15 @@ fn registry(property: &str) -> Option<PropertyCheck> {
             thorough_s: 900,
             assumptions: vec![],
         },
+        "C06" => PropertyCheck {
+            parts: vec![Box::new(Part(Arc::new(scn_exec::ObjExec { property: "C06", multi: false }))), Box::new(Part(Arc::new(scn_exec::ObjExec { property: "C06", multi: true })))],
+            rule: RULE_D,
+            quick_s: 30,
+            thorough_s: 900,
+            assumptions: vec![],
+        },
+        "C11" => PropertyCheck { parts: vec![Box::new(Part(Arc::new(scn_exec::ExecRaw { property: "C11" })))], rule: RULE_D, quick_s: 20, thorough_s: 600, assumptions: vec![] },
+        "C12" => PropertyCheck { parts: vec![Box::new(Part(Arc::new(scn_exec::ExecRaw { property: "C12" }))), Box::new(Part(Arc::new(scn_exec::ObjExec { property: "C12", multi: false }))), Box::new(Part(Arc::new(scn_exec::ObjExec { property: "C12", multi: true })))], rule: RULE_D, quick_s: 20, thorough_s: 600, assumptions: vec![] },
         "C13" => PropertyCheck { parts: vec![Box::new(Part(Arc::new(scn_cont::AllocConc)))], rule: RULE_T, quick_s: 25, thorough_s: 900, assumptions: vec![] },
         "C18" => PropertyCheck { parts: vec![Box::new(Part(Arc::new(scn_cont::RingLin { property: "C18", kinds: &scn_cont::STANDALONE })))], rule: RULE_T, quick_s: 25, thorough_s: 900, assumptions: vec![] },
         "C04" => PropertyCheck { parts: vec![Box::new(Part(Arc::new(scn_uni::C04Uni)))], rule: RULE_T, quick_s: 25, thorough_s: 900, assumptions: vec![] },
@@ -47,7 +59,7 @@ fn registry(property: &str) -> Option<PropertyCheck> {
 
 fn all_parts() -> Vec<Box<dyn PartRunner>> {
     let mut v: Vec<Box<dyn PartRunner>> = vec![];
-    for p in ["C01", "C02", "C04", "C13", "C18"] {
+    for p in ["C01", "C02", "C04", "C06", "C11", "C12", "C13", "C18"] {
         if let Some(pc) = registry(p) {
             v.extend(pc.parts);
         }
